@@ -916,7 +916,7 @@ def inline_fresh_helpers(modules, baseline=None, rounds=4):
                     continue
             elif h.is_method:
                 fns = [s for s in h.cls.body if isinstance(s, ast.FunctionDef) and s is not h.node]
-                if h.unique and not h.static:
+                if h.unique:
                     # a method name defined once in the package means the same thing when a subclass calls it through self
                     classes = {c.name: c for m_ in modules.values() for c in ast.walk(m_.tree) if isinstance(c, ast.ClassDef)}
                     desc, grew = {h.cls.name}, True
@@ -1007,8 +1007,10 @@ def specialise_fresh_factories(modules, baseline=None):
             continue
         uses = {k: 0 for k in facs}
         done = {k: 0 for k in facs}
+        # (a load of the name inside the factory's own body is a local of the same spelling - the innermost wrapper is often named like the factory - or recursion)
+        inside = {k: {id(x) for x in ast.walk(v[0])} for k, v in facs.items()}
         for n in ast.walk(m.tree):
-            if isinstance(n, ast.Name) and n.id in facs and isinstance(n.ctx, ast.Load):
+            if isinstance(n, ast.Name) and n.id in facs and isinstance(n.ctx, ast.Load) and id(n) not in inside[n.id]:
                 uses[n.id] += 1
 
         def rewrite(stmts):
@@ -1841,6 +1843,42 @@ def _const_value(e):
 _RECV_CACHE = {}
 
 
+def _class_table(modules):
+    return {c.name: c for m_ in modules.values() for c in ast.walk(m_.tree) if isinstance(c, ast.ClassDef)}
+
+
+def _init_owner(modules, cname, _depth=0):
+    """name of the class whose __init__ runs when class `cname` of the package is instantiated (first one along the first-base chain), None when unknown / not a class"""
+    classes = _class_table(modules)
+    k = classes.get(cname)
+    while k is not None and _depth < 20:
+        if any(isinstance(st, ast.FunctionDef) and st.name == '__init__' for st in k.body):
+            return k.name
+        b = k.bases[0] if k.bases else None
+        bn = b.id if isinstance(b, ast.Name) else (b.attr if isinstance(b, ast.Attribute) else None)
+        k = classes.get(bn)
+        _depth += 1
+    return None
+
+
+def _init_target(modules, call):
+    """for a call `super().__init__(..)` / `Base.__init__(self, ..)`: the name of the class whose __init__ it reaches, None when it cannot be told"""
+    f = call.func
+    if not (isinstance(f, ast.Attribute) and f.attr == '__init__'):
+        return None
+    classes = _class_table(modules)
+    if isinstance(f.value, ast.Name) and f.value.id in classes:
+        return _init_owner(modules, f.value.id)
+    if isinstance(f.value, ast.Call) and isinstance(f.value.func, ast.Name) and f.value.func.id == 'super':
+        for k in classes.values():
+            if any(x is call for x in ast.walk(k)):
+                b = k.bases[0] if k.bases else None
+                bn = b.id if isinstance(b, ast.Name) else (b.attr if isinstance(b, ast.Attribute) else None)
+                # a base outside the package (type, OrderedDict, Exception): certainly not a constructor of the package
+                return (_init_owner(modules, bn) or '<external>') if bn in classes else '<external>'
+    return None
+
+
 def _receiver_class(modules, call):
     """the class a call `self.<attr>.<m>(..)` / `<x>.<attr>.<m>(..)` is made on, when <attr> is only ever assigned `ClassName(..)` (or a singleton factory of it) in the
     package and that class defines <m>; None when unknown"""
@@ -1978,7 +2016,11 @@ def specialise_fresh_optional_params(modules, bparams=None):
                     pass
             if isinstance(st, ast.Assign) and len(st.targets) == 1 and isinstance(st.targets[0], ast.Name) and st.targets[0].id == pname:
                 v2 = subst(copy.deepcopy(st.value), pname, val)
-                if _hoistable(v2):
+                # (a class constant of the package - `HsmEventProcessor.SPY_RING_BUFFER_SIZE`, `self.__class__.QUEUE_SIZE` - is as good as a literal here)
+                class_const = isinstance(v2, ast.Attribute) and v2.attr.isupper() and (
+                    (isinstance(v2.value, ast.Name) and v2.value.id in _class_table(modules)) or
+                    ast.unparse(v2.value) in ('self.__class__', 'type(self)'))
+                if _hoistable(v2) or class_const:
                     val = v2
                     continue
                 return None
@@ -2016,7 +2058,24 @@ def specialise_fresh_optional_params(modules, bparams=None):
                 if kind == 'pos' and i != len(pos) - 1:
                     continue
                 supplied = False
-                for c in calls.get(fn.name, []):
+                own_cls = q.split('.')[-2] if is_method else None
+                cands_ = list(calls.get(fn.name, []))
+                if fn.name == '__init__' and is_method:
+                    # a constructor is reached by `Cls(..)` for every class whose first __init__ in its base chain is this one, by `super().__init__(..)` from the class
+                    # directly below it in such a chain, and by `Base.__init__(self, ..)`
+                    cands_ = []
+                    for c in calls.get('__init__', []):
+                        tgt = _init_target(modules, c)
+                        if tgt in (None, own_cls):
+                            cands_.append(c)
+                    for cname_, cl_ in calls.items():
+                        if _init_owner(modules, cname_) == own_cls:
+                            for c in cl_:
+                                if isinstance(c.func, ast.Name):
+                                    # Cls(a, b): positional arguments start at the parameter after self
+                                    fake = ast.Call(func=ast.Attribute(value=ast.Name(id='_', ctx=ast.Load()), attr='__init__', ctx=ast.Load()), args=c.args, keywords=c.keywords)
+                                    cands_.append(fake)
+                for c in cands_:
                     if is_method and _receiver_class(modules, c) not in (None, q.split('.')[-2]):
                         continue        # a call on an attribute known to hold an object of another class that has its own method of this name
                     if any(k.arg == pname or k.arg is None for k in c.keywords) or any(isinstance(x, ast.Starred) for x in c.args):
@@ -2863,4 +2922,119 @@ def drop_effect_free_ifs(modules):
         if n:
             ast.fix_missing_locations(m.tree)
             log.append((m.name, [], '%d empty conditional(s) with an effect-free test dropped' % n))
+    return log
+
+
+def _settle_constant_locals(body, modules):
+    """`x = None` / `if x is None: x = E` (adjacent, top level) is `x = E`; and a local bound exactly once at top level to a class constant of the package
+    (`K.UPPER`, `self.__class__.UPPER`) is that constant wherever it is read"""
+    out = []
+    i = 0
+    while i < len(body):
+        st = body[i]
+        nxt = body[i + 1] if i + 1 < len(body) else None
+        if isinstance(st, ast.Assign) and len(st.targets) == 1 and isinstance(st.targets[0], ast.Name) and isinstance(st.value, ast.Constant) and st.value.value is None \
+                and isinstance(nxt, ast.If) and not nxt.orelse and len(nxt.body) == 1 and isinstance(nxt.body[0], ast.Assign) and len(nxt.body[0].targets) == 1 \
+                and isinstance(nxt.body[0].targets[0], ast.Name) and nxt.body[0].targets[0].id == st.targets[0].id \
+                and isinstance(nxt.test, ast.Compare) and len(nxt.test.ops) == 1 and isinstance(nxt.test.ops[0], ast.Is) and isinstance(nxt.test.left, ast.Name) \
+                and nxt.test.left.id == st.targets[0].id and isinstance(nxt.test.comparators[0], ast.Constant) and nxt.test.comparators[0].value is None:
+            out.append(ast.copy_location(ast.Assign(targets=[st.targets[0]], value=nxt.body[0].value), st))
+            i += 2
+            continue
+        out.append(st)
+        i += 1
+    classes = _class_table(modules)
+    stores = {}
+    for st in out:
+        for n in ast.walk(st):
+            if isinstance(n, ast.Name) and isinstance(n.ctx, (ast.Store, ast.Del)):
+                stores[n.id] = stores.get(n.id, 0) + 1
+    binds = {}
+    for st in out:
+        if isinstance(st, ast.Assign) and len(st.targets) == 1 and isinstance(st.targets[0], ast.Name) and stores.get(st.targets[0].id) == 1:
+            v = st.value
+            if isinstance(v, ast.Attribute) and v.attr.isupper() and ((isinstance(v.value, ast.Name) and v.value.id in classes) or ast.unparse(v.value) in ('self.__class__', 'type(self)')):
+                binds[st.targets[0].id] = (st, v)
+    nested_reads = {n.id for st in out for d in ast.walk(st) if isinstance(d, (ast.FunctionDef, ast.Lambda)) for n in ast.walk(d) if isinstance(n, ast.Name)}
+    binds = {k: v for k, v in binds.items() if k not in nested_reads}
+    if binds:
+        class S(ast.NodeTransformer):
+            def visit_Name(self, x):
+                if isinstance(x.ctx, ast.Load) and x.id in binds:
+                    return ast.copy_location(copy.deepcopy(binds[x.id][1]), x)
+                return x
+
+            def visit_FunctionDef(self, f):
+                return f        # a closure may run later; leave it alone
+        out = [S().visit(st) for st in out if not any(st is b[0] for b in binds.values())]
+    return out
+
+
+def fold_fresh_constant_attributes(modules):
+    """an attribute the pinned tree does not have and that every store in the package sets to one and the same literal (typically None, after a new optional
+    constructor argument was analysed at its default) holds that literal whenever it is read: reads are written as the literal and the tests on it fold away"""
+    battrs = baseline_attributes()
+    stores, tainted = {}, set()
+    for m in modules.values():
+        for n in ast.walk(m.tree):
+            if isinstance(n, ast.Assign):
+                for t in n.targets:
+                    for x in ([t] if not isinstance(t, (ast.Tuple, ast.List)) else t.elts):
+                        if isinstance(x, ast.Attribute):
+                            if len(n.targets) == 1 and x is t:
+                                stores.setdefault(x.attr, []).append(n.value)
+                            else:
+                                tainted.add(x.attr)
+            elif isinstance(n, (ast.AugAssign, ast.AnnAssign)) and isinstance(n.target, ast.Attribute):
+                tainted.add(n.target.attr)
+            elif isinstance(n, ast.Call) and isinstance(n.func, ast.Name) and n.func.id in ('setattr', 'delattr') and len(n.args) >= 2:
+                # (a metaclass installing descriptors with `setattr(cls, name, ..)` writes class attributes under user-declared names, not instance state)
+                if isinstance(n.args[1], ast.Constant):
+                    tainted.add(n.args[1].value)
+                elif not (isinstance(n.args[0], ast.Name) and n.args[0].id == 'cls'):
+                    tainted.add('*')
+            elif isinstance(n, (ast.For, ast.With, ast.Delete)):
+                for x in ast.walk(n.target if isinstance(n, ast.For) else ast.Module(body=[], type_ignores=[])):
+                    if isinstance(x, ast.Attribute) and isinstance(x.ctx, (ast.Store, ast.Del)):
+                        tainted.add(x.attr)
+    consts = {}
+    for a, vals in stores.items():
+        if a in battrs or a in tainted or a.startswith('__'):
+            continue
+        # a store under a computed name (augment(**kwargs): setattr(self, key, value)) is the user's way to add *public* fields; a new private name is the package's own
+        if '*' in tainted and not a.startswith('_'):
+            continue
+        if all(isinstance(v, ast.Constant) for v in vals) and len({repr(v.value) for v in vals}) == 1 and isinstance(vals[0].value, (type(None), bool, int, str)):
+            consts[a] = vals[0]
+    if not consts:
+        return []
+    log = []
+
+    class R(ast.NodeTransformer):
+        def __init__(self):
+            self.n = 0
+
+        def visit_Attribute(self, x):
+            self.generic_visit(x)
+            if isinstance(x.ctx, ast.Load) and x.attr in consts:
+                self.n += 1
+                return ast.copy_location(copy.deepcopy(consts[x.attr]), x)
+            return x
+
+        def visit_Call(self, c):
+            self.generic_visit(c)
+            if isinstance(c.func, ast.Name) and c.func.id == 'getattr' and len(c.args) in (2, 3) and isinstance(c.args[1], ast.Constant) and c.args[1].value in consts:
+                k = consts[c.args[1].value]
+                if len(c.args) == 2 or (isinstance(c.args[2], ast.Constant) and repr(c.args[2].value) == repr(k.value)):
+                    self.n += 1
+                    return ast.copy_location(copy.deepcopy(k), c)
+            return c
+    for m in modules.values():
+        for fn in [n for n in ast.walk(m.tree) if isinstance(n, ast.FunctionDef)]:
+            r = R()
+            new_body = [r.visit(st) for st in fn.body]
+            if r.n:
+                fn.body = _settle_constant_locals(_fold(_fold_none_locals(new_body)), modules) or [ast.Pass()]
+                ast.fix_missing_locations(fn)
+                log.append(('%s.%s' % (m.name, fn.name), [], 'reads of new attributes that only ever hold one literal written as that literal: %s' % ', '.join(sorted(consts))))
     return log
